@@ -89,7 +89,10 @@ def scenarios(draw):
         # (its finally / with clauses still run)
         "death": draw(st.sampled_from(["exit", "exit", "raise"])),
         "split": draw(st.booleans()),
-        "reader_split": draw(st.sampled_from(["same", "auto"])),
+        # the later processes give the writer's directory_split again, or let
+        # the library detect the layout ('auto', the default) - 'alternate':
+        # every other crash point of the scenario
+        "reader_split": draw(st.sampled_from(["same", "auto", "alternate", "alternate"])),
         "seed_old": draw(st.integers(0, 99)),
         "seed_new": draw(st.integers(100, 199)),
         # every k-th crash point is judged by a really fresh interpreter
@@ -453,6 +456,8 @@ def run_scenario(spec, state=None, points=None, stop_at_first=True):
 
         for pt in todo:
             k, b = pt
+            if spec["reader_split"] == "alternate":
+                reader_split = "auto" if (all_points.index(pt) if pt in all_points else 0) % 2 else split
             c = fresh("run")
             code, res = do_search(
                 c, split, spec["seed_new"], q_new, overwrite=w_over, crash=(k, b), death=death
@@ -520,7 +525,7 @@ def run_scenario(spec, state=None, points=None, stop_at_first=True):
             nontrivial = first_mut < k <= last_mut or (b is not None)
             if state is not None:
                 cp = {"scenario": sh, "kind": scenario, "split": split, "reader_split": spec["reader_split"], "point": [k, b], "op": log[k] if k < len(log) else None}
-                o = Outcome([], nontrivial, [f"scenario={scenario}", f"split={split}", f"death={death}", "inside_write" if b is not None else "between_ops"] + (["reader=spawned_interpreter"] if spawn else ["reader=forked"]))
+                o = Outcome([], nontrivial, [f"scenario={scenario}", f"split={split}", f"reader_split={reader_split}", f"death={death}", "inside_write" if b is not None else "between_ops"] + (["reader=spawned_interpreter"] if spawn else ["reader=forked"]))
                 state.record(cp, o)
             if pv:
                 viol += pv
@@ -552,6 +557,18 @@ def shard_main(tier, seed, shard, nshards, state):
     class Stop(Exception):
         pass
 
+    # the discrete dimensions of a scenario are covered systematically: the
+    # i-th scenario of this shard takes the next cell of the grid (48 cells =
+    # one quick run), Hypothesis draws the network and the seeds for it
+    grid = [
+        (sc, sp, rs, de)
+        for sc in ("first", "second", "overwrite", "improve")
+        for sp in (False, True)
+        for rs in ("same", "auto", "alternate")
+        for de in ("exit", "raise")
+    ]
+    counter = {"i": 0}
+
     @hseed(int(seed) * 1000 + shard)
     @settings(
         max_examples=nb, database=None, deadline=None, report_multiple_bugs=False,
@@ -560,6 +577,16 @@ def shard_main(tier, seed, shard, nshards, state):
     )
     @given(strategy(tier))
     def test(spec):
+        # (a spec that Hypothesis executes again - to confirm a failure - gets
+        # the cell it had)
+        from ..harness import spec_hash
+
+        h_ = spec_hash(spec)
+        if h_ not in counter:
+            counter[h_] = counter["i"]
+            counter["i"] += 1
+        cell = grid[(shard + counter[h_] * nshards + int(seed)) % len(grid)]
+        spec = dict(spec, scenario=cell[0], split=cell[1], reader_split=cell[2], death=cell[3])
         out = run_scenario(spec, state=state)
         state.stats["scenarios"] = state.stats.get("scenarios", 0) + 1
         if out.violations:
@@ -580,5 +607,5 @@ def coverage_extra(tier, stats):
     return {
         "exhaustive": False,
         "exhaustive_within_each_scenario": True,
-        "exhaustive_note": "scenarios are generated (sampled); within each generated scenario every crash point (before each file-system mutation and after every byte of every write) was executed",
+        "exhaustive_note": "the grid scenario kind x split x reader_split x death (48 cells) is covered once per quick run (networks and seeds are generated); within each generated scenario every crash point (before each file-system mutation and after every byte of every write) was executed",
     }
